@@ -97,6 +97,21 @@ def check(tier: str) -> Result:
                 else:
                     raise AnalysisError(f"{env}.__init__: unrecognised flow self.time_limit = {txt(v)}")
             res.add("C11.R1", e.loc(), f"{env}.__init__", "self.time_limit <- time_limit", ok, f"{why}: {txt(v)}")
+            # documented default `num_rows * num_cols`: a product of two grid extents must use both axes
+            from ..axis import NAME_AXIS
+            dflt = None
+            if v.kind == "bool" and len(v.args[1]) == 2:
+                dflt = strip_cast(v.args[1][1])
+            elif v.kind == "choice":
+                dflt = next((strip_cast(x) for x in v.args[2] if strip_cast(x) is not P), None)
+            if dflt is not None and dflt.kind == "bin" and dflt.args[0] == "*":
+                ax = []
+                for x in (dflt.args[1], dflt.args[2]):
+                    x = strip_cast(x)
+                    ax.append(NAME_AXIS.get(x.args[1].lstrip("_")) if x.kind == "attr" else None)
+                if None not in ax:
+                    res.add("C11.R1", e.loc(), f"{env}.__init__", "default time limit is the grid area (rows x columns)", ax[0] != ax[1],
+                            f"default {txt(dflt)} multiplies the extents of axes {ax}")
         # ---- R2: counter init
         site, fn = env_site(ea, "reset")
         sc0 = vfg.mk_attr(ea.reset_state, "step_count")
